@@ -108,6 +108,20 @@ def impl_encode(kind, w, vals, desc):
     return 'ok ' + bits_str(bw.bit_stream.bin), bw.bit_stream.bin
 
 
+def impl_decode_scaled(w, n, bits, desc, scale_powered=100, refval=-7):
+    """the numeric column decoder with a reference value and a scale in force: (raw + refval) / scale_powered"""
+    from pybufrkit.coder import CoderState
+    from pybufrkit.bitops import get_bit_reader
+    e = env()
+    st = CoderState(True, n)
+    br = get_bit_reader(to_bytes(bits))
+    try:
+        e['dec'].process_numeric_compressed(st, br, desc, w, scale_powered, refval)
+    except Exception as ex:
+        return None
+    return [v[0] for v in st.decoded_values_all_subsets]
+
+
 def impl_decode(kind, w, n, bits, desc):
     """bits must be a whole number of octets (the caller pads): then the model sees
     exactly the stream the implementation sees"""
@@ -203,6 +217,13 @@ def work_col(case):
             lay = lay_column(w, wd, base, vals)
             suf = suffix_for(len(lay), sufpat)
             out, dv = impl_decode(kind, w, len(vals), lay + suf, desc)
+            if kind == 'num' and dv is not None:
+                # the same column read with a reference value and a scale in force: every present entry, at every
+                # increment width (1-bit increments included), is (raw + refval) / 10^scale
+                dvs = impl_decode_scaled(w, len(vals), lay + suf, desc)
+                want = [None if x is None else (x - 7) / 100 for x in dv]
+                if dvs != want:
+                    out = out + ' SCALED-DIFFERS %r' % (dvs,)
             res['anyw'].append((wd, base, lay, suf, out, dv))
         return res
 
@@ -404,6 +425,12 @@ def run_columns(ctx, cases, tag, procs):
             # a code/flag reading turns the element's all-ones value into missing
             expect = list(vals)
             ok2 = (dv == expect and out.endswith(' %d' % len(lay)))
+            if 'SCALED-DIFFERS' in out:
+                ctx.violation({'kind': 'any-width-scaling', 'case': c2, 'impl': out[:300]},
+                              'column %s w=%d width %d: with refval -7 and scale 2 in force the entries are not (raw - 7) / 100: %s' % (
+                                  show_opt(vals), w, wd, out[-120:]))
+                out = out.split(' SCALED-DIFFERS')[0]
+                ok2 = False
             if not ok2:
                 ctx.violation({'kind': 'any-width-predicate', 'case': c2, 'impl': out},
                               'column %s w=%d laid out with base %d width %d decodes to %s' % (
